@@ -29,6 +29,7 @@ structure Shared where
   field : Nat
   other : Nat
   winner : Option Nat := none        -- ghost: the thread whose CAS changed the field
+  envMoved : Bool := false           -- ghost: the environment has changed the neighbouring bits
 deriving Repr
 
 /-- The protocol parameters. `single = true`: one compare_exchange(old0 → next old0), no loop (pin). -/
@@ -63,7 +64,7 @@ def step (P : Proto) (s : State) : Act → State
   | .thread t =>
     let r := localStep P t s.sh (s.pc t)
     { sh := r.1, pc := fun x => if x = t then r.2 else s.pc x }
-  | .env v => { s with sh := { s.sh with other := v } }
+  | .env v => { s with sh := { s.sh with other := v, envMoved := true } }
 
 def init (P : Proto) (field0 other0 : Nat) : State :=
   { sh := { field := field0, other := other0 }, pc := fun _ => P.entry }
